@@ -4,6 +4,7 @@ import (
 	"encoding/json"
 	"fmt"
 	"math/rand"
+	"regexp"
 	"sort"
 	"strings"
 
@@ -132,6 +133,8 @@ func (l mleaf) coq() string {
 	return fmt.Sprintf("{| l_type := %s; l_format := %s; l_required := %s; l_props := [%s]; l_addl := %s; l_nullable := %v |}",
 		t, gendoc.CoqStr(l.Format), gendoc.CoqStrList(l.Required), strings.Join(ps, "; "), coqAddl(l.Addl), l.Nullable)
 }
+
+var jsonTagRE = regexp.MustCompile(`json:"([^",]+)`)
 
 func permutations(n int) [][]int {
 	var out [][]int
@@ -400,6 +403,73 @@ func runC10(r *Report, rng *rand.Rand, thorough bool) {
 			}
 		}
 	}
+	// ---- one component used as a member of several compositions: each composition is the union of ITS members,
+	// and the shared component itself is unchanged (no state leaks from one merge into the next)
+	nShared := 12
+	if thorough {
+		nShared = 150
+	}
+	for i := 0; i < nShared; i++ {
+		baseProps := []string{"id"}
+		if rng.Intn(2) == 0 {
+			baseProps = append(baseProps, "name")
+		}
+		k := 2 + rng.Intn(2)
+		refFirst := rng.Intn(3) != 0
+		comps := map[string]any{}
+		bp := map[string]any{}
+		for _, p := range baseProps {
+			bp[p] = map[string]any{"type": "string"}
+		}
+		baseName := []string{"Pet", "Zbase"}[rng.Intn(2)] // generated before or after the compositions (types are emitted in name order)
+		comps[baseName] = map[string]any{"type": "object", "properties": bp}
+		want := map[string][]string{baseName: append([]string{}, baseProps...)}
+		for j := 0; j < k; j++ {
+			extra := fmt.Sprintf("extra%d", j)
+			inline := map[string]any{"type": "object", "properties": map[string]any{extra: map[string]any{"type": "integer"}}}
+			ref := map[string]any{"$ref": "#/components/schemas/" + baseName}
+			name := fmt.Sprintf("Comp%d", j)
+			if refFirst {
+				comps[name] = map[string]any{"allOf": []any{ref, inline}}
+			} else {
+				comps[name] = map[string]any{"allOf": []any{inline, ref}}
+			}
+			want[name] = append(append([]string{}, baseProps...), extra)
+		}
+		spec, _ := json.Marshal(map[string]any{"openapi": "3.0.3", "info": map[string]any{"title": "m", "version": "1"}, "paths": map[string]any{}, "components": map[string]any{"schemas": comps}})
+		cfg := codegen.Configuration{PackageName: "gen", Generate: codegen.GenerateOptions{Models: true}}
+		cfg.OutputOptions.SkipPrune = true
+		replay := map[string]any{"spec": json.RawMessage(spec), "shared_member": baseName, "ref_first": refFirst}
+		r.Count("shared/"+string(spec), true)
+		r.Dist["allof=shared-member"]++
+		code, err := generate(spec, cfg)
+		if err != nil {
+			r.Violate("allof_generation_fails", trunc(err.Error(), 200), replay)
+			continue
+		}
+		p, _ := parseGo(code)
+		for tn, props := range want {
+			fields, ok := structFields(p, tn)
+			if !ok {
+				r.Violate("allof_not_a_struct", tn+" is not a struct", replay)
+				continue
+			}
+			var got []string
+			for _, f := range fields {
+				if m := jsonTagRE.FindStringSubmatch(f.Tag); m != nil {
+					got = append(got, m[1])
+				} else {
+					got = append(got, f.GoName)
+				}
+			}
+			sort.Strings(got)
+			w := append([]string{}, props...)
+			sort.Strings(w)
+			if strings.Join(got, " ") != strings.Join(w, " ") {
+				r.Violate("allof_shared_member_leaks", fmt.Sprintf("%s has properties %v, its members give %v (shared member %s, reference first: %v)", tn, got, w, baseName, refFirst), replay)
+			}
+		}
+	}
 	// ---- the two refuted clauses, reproduced on the real code
 	for _, w := range []struct {
 		sig  string
@@ -441,5 +511,5 @@ func runC10(r *Report, rng *rand.Rand, thorough bool) {
 			r.Violate(w.sig, msg, map[string]any{"spec": json.RawMessage(w.spec)})
 		}
 	}
-	r.Rule = "hook level: pairs of schemas over type {absent, object, string} x format x required x properties (4 names, 2 value types) x additionalProperties {absent, true, false, schema s, schema i} x nullable through mergeOpenapiSchemas vs the model (result or rejection) and vs the statement; end to end: allOf lists of 1-3 compatible members (alternately $ref and inline, overlapping identical properties, additionalProperties true/false/schema) in EVERY permutation x {flat, first two members nested by reference, nested inline} x old/new merge mode through codegen.Generate, struct fields (names, pointer-ness from required, additional-properties type) vs the union of the members and equal across permutations; the two refuted clauses replayed; non-trivial = at least two members / a successful merge"
+	r.Rule = "hook level: pairs of schemas over type {absent, object, string} x format x required x properties (4 names, 2 value types) x additionalProperties {absent, true, false, schema s, schema i} x nullable through mergeOpenapiSchemas vs the model (result or rejection) and vs the statement; end to end: allOf lists of 1-3 compatible members (alternately $ref and inline, overlapping identical properties, additionalProperties true/false/schema) in EVERY permutation x {flat, first two members nested by reference, nested inline} x old/new merge mode through codegen.Generate, struct fields (names, pointer-ness from required, additional-properties type) vs the union of the members and equal across permutations; one component shared by 2-3 compositions (reference first / last, emitted before / after them): every type has exactly its own members' properties; the two refuted clauses replayed; non-trivial = at least two members / a successful merge"
 }
